@@ -1,7 +1,9 @@
 (* C17 — A misbehaving peer cannot crash, wedge or confuse the node.
-   Layer 1: the frame decoder is total on arbitrary bytes. (Layers 2 and 3 — adapter loops and
-   driver non-interference — are in props/C17b.v.) *)
-From MIO Require Import Base Gen ListN Varint VarintProofs Decoder DecoderProofs.
+   Layer 1: the frame decoder is total on arbitrary bytes.  Layer 3: in the driver, processing one
+   connection cannot touch another.  (Layer 2, the adapters' read loops on hostile bytes, and
+   tungstenite's parser are exercised by the hostile-peer scenarios with a healthy canary
+   connection beside them; the lifecycle theorem of C03 holds for ANY adapter answers.) *)
+From MIO Require Import Base Gen ListN Varint VarintProofs Decoder DecoderProofs ResId Driver DriverIso.
 Local Open Scope N_scope.
 
 Theorem C17_gen_obligation : varint_consts_ok = true.
@@ -27,5 +29,26 @@ Example C17_former_witnesses :
   (exists st, feed Checked [[128; 128; 128; 128; 128; 128; 128; 128; 128; 128; 128; 128]; [1; 1; 2; 3]] = DOk st []).
 Proof. split; [vm_compute; reflexivity|]. split; [vm_compute; reflexivity|]. eexists. vm_compute. reflexivity. Qed.
 
+(* Whatever the adapter of ONE connection answers while that connection is processed -- and a
+   hostile peer controls exactly that: whether the handshake "completes", which chunks are
+   "received", whether the read ends in Disconnected -- and as long as user code makes no
+   controller calls of its own inside the callbacks: no other registry entry changes, no listener,
+   no id counter, and every event emitted is about that connection. *)
+Theorem C17_isolation : forall (s : dstate) (id : rid) (rd : readiness) (a : answer),
+  resource_type gen_layout id = Remote -> quiet a ->
+  same_elsewhere id s (fst (process s id rd a)) /\ Forall (about id) (snd (process s id rd a)).
+Proof. exact isolation. Qed.
+
+(* non-vacuity: a hostile answer (three chunks then Disconnected) on connection 5 while
+   connection 261 exists: 261's entry is untouched, all four events are about 5 *)
+Example C17_isolation_example :
+  let hostile := {| a_race0 := []; a_pending := PReady; a_cb_conn := []; a_chunks := [(1, []); (2, []); (3, [])];
+                    a_read := RDisconnected; a_race := []; a_cb_disc := []; a_accepts := [] |} in
+  let s := fst (drun (dinit 5) [LCall (UConnect true 4); LCall (UConnect true 9)]) in
+  quiet hostile /\ find_remote 261 (remotes (fst (process s 5 Read hostile))) = find_remote 261 (remotes s) /\
+  find_remote 261 (remotes s) <> None /\ length (snd (process s 5 Read hostile)) = 5%nat.
+Proof. cbv zeta. split; [unfold quiet; cbn; repeat split; repeat constructor|]. vm_compute. repeat split. discriminate. Qed.
+
 Print Assumptions C17_gen_obligation.
+Print Assumptions C17_isolation.
 Print Assumptions C17_decoder_total.
